@@ -23,6 +23,8 @@ def enumerate_chains(pid, tier, family, maxlen, invariants, keep):
 
 
 def chain_text(chain, variant="join"):
+    if variant.startswith("nest"):
+        return f"[{variant}] x: {chain['start']} " + SG.macro_chain(chain, [])
     return f"{variant}! {{ x: {chain['start']} " + SG.macro_chain(chain, []) + " }"
 
 
